@@ -20,14 +20,20 @@ theorem sinv_idle {s s' : State} {a : ActorId} {c : Choice} (inv1 : Inv1 s) (g1 
   conc_split hs
   all_goals (
     refine ⟨fun sid => ?_, fun b sid => ?_, fun sid => ?_⟩
-    · have := s1 sid; goal_simp; grind
+    · first
+      | exact s1 sid
+      | (have := s1 sid; goal_simp; grind)
     · have := s2 b sid; have := s2 a sid; have := s3 sid
       by_cases hba : b = a
       · subst hba; goal_simp; grind
       · have hab : ¬ a = b := fun h => hba h.symm
         simp only [State.put, State.putS, State.finish, State.write, upd_apply, if_neg hba, if_neg hab]
-        goal_simp; grind
-    · have := s3 sid; goal_simp; grind)
+        first
+        | exact s2 b sid
+        | (goal_simp; grind)
+    · first
+      | exact s3 sid
+      | (have := s3 sid; goal_simp; grind))
 
 set_option maxHeartbeats 1000000 in
 theorem sinv_begin {s s' : State} {a : ActorId} {c : Choice} (inv1 : Inv1 s) (g1 : Sinv s)
@@ -44,14 +50,20 @@ theorem sinv_begin {s s' : State} {a : ActorId} {c : Choice} (inv1 : Inv1 s) (g1
   conc_split hs
   all_goals (
     refine ⟨fun sid => ?_, fun b sid => ?_, fun sid => ?_⟩
-    · have := s1 sid; goal_simp; grind
+    · first
+      | exact s1 sid
+      | (have := s1 sid; goal_simp; grind)
     · have := s2 b sid; have := s2 a sid; have := s3 sid
       by_cases hba : b = a
       · subst hba; goal_simp; grind
       · have hab : ¬ a = b := fun h => hba h.symm
         simp only [State.put, State.putS, State.finish, State.write, upd_apply, if_neg hba, if_neg hab]
-        goal_simp; grind
-    · have := s3 sid; goal_simp; grind)
+        first
+        | exact s2 b sid
+        | (goal_simp; grind)
+    · first
+      | exact s3 sid
+      | (have := s3 sid; goal_simp; grind))
 
 set_option maxHeartbeats 1000000 in
 theorem sinv_commit {s s' : State} {a : ActorId} {c : Choice} (inv1 : Inv1 s) (g1 : Sinv s)
@@ -68,14 +80,20 @@ theorem sinv_commit {s s' : State} {a : ActorId} {c : Choice} (inv1 : Inv1 s) (g
   conc_split hs
   all_goals (
     refine ⟨fun sid => ?_, fun b sid => ?_, fun sid => ?_⟩
-    · have := s1 sid; goal_simp; grind
+    · first
+      | exact s1 sid
+      | (have := s1 sid; goal_simp; grind)
     · have := s2 b sid; have := s2 a sid; have := s3 sid
       by_cases hba : b = a
       · subst hba; goal_simp; grind
       · have hab : ¬ a = b := fun h => hba h.symm
         simp only [State.put, State.putS, State.finish, State.write, upd_apply, if_neg hba, if_neg hab]
-        goal_simp; grind
-    · have := s3 sid; goal_simp; grind)
+        first
+        | exact s2 b sid
+        | (goal_simp; grind)
+    · first
+      | exact s3 sid
+      | (have := s3 sid; goal_simp; grind))
 
 set_option maxHeartbeats 1000000 in
 theorem sinv_abort {s s' : State} {a : ActorId} {c : Choice} (inv1 : Inv1 s) (g1 : Sinv s)
@@ -92,14 +110,20 @@ theorem sinv_abort {s s' : State} {a : ActorId} {c : Choice} (inv1 : Inv1 s) (g1
   conc_split hs
   all_goals (
     refine ⟨fun sid => ?_, fun b sid => ?_, fun sid => ?_⟩
-    · have := s1 sid; goal_simp; grind
+    · first
+      | exact s1 sid
+      | (have := s1 sid; goal_simp; grind)
     · have := s2 b sid; have := s2 a sid; have := s3 sid
       by_cases hba : b = a
       · subst hba; goal_simp; grind
       · have hab : ¬ a = b := fun h => hba h.symm
         simp only [State.put, State.putS, State.finish, State.write, upd_apply, if_neg hba, if_neg hab]
-        goal_simp; grind
-    · have := s3 sid; goal_simp; grind)
+        first
+        | exact s2 b sid
+        | (goal_simp; grind)
+    · first
+      | exact s3 sid
+      | (have := s3 sid; goal_simp; grind))
 
 set_option maxHeartbeats 1000000 in
 theorem sinv_after {s s' : State} {a : ActorId} {c : Choice} (inv1 : Inv1 s) (g1 : Sinv s)
@@ -116,14 +140,20 @@ theorem sinv_after {s s' : State} {a : ActorId} {c : Choice} (inv1 : Inv1 s) (g1
   conc_split hs
   all_goals (
     refine ⟨fun sid => ?_, fun b sid => ?_, fun sid => ?_⟩
-    · have := s1 sid; goal_simp; grind
+    · first
+      | exact s1 sid
+      | (have := s1 sid; goal_simp; grind)
     · have := s2 b sid; have := s2 a sid; have := s3 sid
       by_cases hba : b = a
       · subst hba; goal_simp; grind
       · have hab : ¬ a = b := fun h => hba h.symm
         simp only [State.put, State.putS, State.finish, State.write, upd_apply, if_neg hba, if_neg hab]
-        goal_simp; grind
-    · have := s3 sid; goal_simp; grind)
+        first
+        | exact s2 b sid
+        | (goal_simp; grind)
+    · first
+      | exact s3 sid
+      | (have := s3 sid; goal_simp; grind))
 
 set_option maxHeartbeats 1000000 in
 theorem sinv_use {s s' : State} {a : ActorId} {c : Choice} (inv1 : Inv1 s) (g1 : Sinv s)
@@ -140,14 +170,20 @@ theorem sinv_use {s s' : State} {a : ActorId} {c : Choice} (inv1 : Inv1 s) (g1 :
   conc_split hs
   all_goals (
     refine ⟨fun sid => ?_, fun b sid => ?_, fun sid => ?_⟩
-    · have := s1 sid; goal_simp; grind
+    · first
+      | exact s1 sid
+      | (have := s1 sid; goal_simp; grind)
     · have := s2 b sid; have := s2 a sid; have := s3 sid
       by_cases hba : b = a
       · subst hba; goal_simp; grind
       · have hab : ¬ a = b := fun h => hba h.symm
         simp only [State.put, State.putS, State.finish, State.write, upd_apply, if_neg hba, if_neg hab]
-        goal_simp; grind
-    · have := s3 sid; goal_simp; grind)
+        first
+        | exact s2 b sid
+        | (goal_simp; grind)
+    · first
+      | exact s3 sid
+      | (have := s3 sid; goal_simp; grind))
 
 set_option maxHeartbeats 1000000 in
 theorem sinv_sess {s s' : State} {a : ActorId} {c : Choice} (inv1 : Inv1 s) (g1 : Sinv s)
@@ -164,14 +200,20 @@ theorem sinv_sess {s s' : State} {a : ActorId} {c : Choice} (inv1 : Inv1 s) (g1 
   conc_split hs
   all_goals (
     refine ⟨fun sid => ?_, fun b sid => ?_, fun sid => ?_⟩
-    · have := s1 sid; goal_simp; grind
+    · first
+      | exact s1 sid
+      | (have := s1 sid; goal_simp; grind)
     · have := s2 b sid; have := s2 a sid; have := s3 sid
       by_cases hba : b = a
       · subst hba; goal_simp; grind
       · have hab : ¬ a = b := fun h => hba h.symm
         simp only [State.put, State.putS, State.finish, State.write, upd_apply, if_neg hba, if_neg hab]
-        goal_simp; grind
-    · have := s3 sid; goal_simp; grind)
+        first
+        | exact s2 b sid
+        | (goal_simp; grind)
+    · first
+      | exact s3 sid
+      | (have := s3 sid; goal_simp; grind))
 
 set_option maxHeartbeats 1000000 in
 theorem sinv_close {s s' : State} {a : ActorId} {c : Choice} (inv1 : Inv1 s) (g1 : Sinv s)
@@ -188,14 +230,20 @@ theorem sinv_close {s s' : State} {a : ActorId} {c : Choice} (inv1 : Inv1 s) (g1
   conc_split hs
   all_goals (
     refine ⟨fun sid => ?_, fun b sid => ?_, fun sid => ?_⟩
-    · have := s1 sid; goal_simp; grind
+    · first
+      | exact s1 sid
+      | (have := s1 sid; goal_simp; grind)
     · have := s2 b sid; have := s2 a sid; have := s3 sid
       by_cases hba : b = a
       · subst hba; goal_simp; grind
       · have hab : ¬ a = b := fun h => hba h.symm
         simp only [State.put, State.putS, State.finish, State.write, upd_apply, if_neg hba, if_neg hab]
-        goal_simp; grind
-    · have := s3 sid; goal_simp; grind)
+        first
+        | exact s2 b sid
+        | (goal_simp; grind)
+    · first
+      | exact s3 sid
+      | (have := s3 sid; goal_simp; grind))
 
 set_option maxHeartbeats 1000000 in
 theorem sinv_exp {s s' : State} {a : ActorId} {c : Choice} (inv1 : Inv1 s) (g1 : Sinv s)
@@ -212,13 +260,19 @@ theorem sinv_exp {s s' : State} {a : ActorId} {c : Choice} (inv1 : Inv1 s) (g1 :
   conc_split hs
   all_goals (
     refine ⟨fun sid => ?_, fun b sid => ?_, fun sid => ?_⟩
-    · have := s1 sid; goal_simp; grind
+    · first
+      | exact s1 sid
+      | (have := s1 sid; goal_simp; grind)
     · have := s2 b sid; have := s2 a sid; have := s3 sid
       by_cases hba : b = a
       · subst hba; goal_simp; grind
       · have hab : ¬ a = b := fun h => hba h.symm
         simp only [State.put, State.putS, State.finish, State.write, upd_apply, if_neg hba, if_neg hab]
-        goal_simp; grind
-    · have := s3 sid; goal_simp; grind)
+        first
+        | exact s2 b sid
+        | (goal_simp; grind)
+    · first
+      | exact s3 sid
+      | (have := s3 sid; goal_simp; grind))
 
 end Lungo.Conc
